@@ -72,6 +72,16 @@ def gen_treebank(rng, kmax=5, nmax=8, disc=True, repeat=True, words=None):
                     edge="--", lemma="--", morph="--")
         t.data['sid'] = 1
         return [t]
+    if disc and rng.random() < 0.04:
+        # a comb: one constituent over every other token - fan-out of ten and more (two-digit arities in the RCG format)
+        from impl import mk_leaf, mk_node
+        m = rng.randint(10, 13)
+        odd = [mk_leaf(2 * i + 1, "V", (words or ["a", "b", "Haus"])[i % 3], "--", "--", "--") for i in range(m)]
+        even = [mk_leaf(2 * i + 2, "P", (words or ["a", "b", "Haus"])[(i + 1) % 3], "--", "--", "--") for i in range(m - 1)]
+        t = mk_node("VROOT", [mk_node("S", [mk_node("VP", odd, edge="--", lemma="--", morph="--")] + even, edge="--", lemma="--", morph="--")],
+                    edge="--", lemma="--", morph="--")
+        t.data['sid'] = 1
+        return [t] * rng.choice([1, 1, 12])          # also: a count of more than nine
     k = rng.randint(1, kmax)
     labels = rng.choice([["S", "VP", "NP"], ["A", "B"], treegen.PLAIN_LABELS])
     for _ in range(k):
